@@ -30,7 +30,7 @@ def main():
     shf = os.path.join(out, 'm%s_demo.sh' % k)
     if os.path.exists(shf):
         demo = 'sh %s %s' % (shf, SCR)
-    demo = re.sub(r'/tmp/seed2?/C\d+/wt', SCR, demo)
+    demo = re.sub(r'/tmp/seed\d?/C\d+/wt', SCR, demo)
     if not demo:
         # fall back: comment at top of the demo source
         src = open(os.path.join(out, 'm%s_demo.c' % k)).read()
